@@ -97,3 +97,43 @@ package domain
 //@ interface ModelRegistry.GetEndpointsForModel
 //@   records lastModelEndpoints = res0
 //@   records lastModelErr = res1
+
+// ---- C11: provider compatibility
+//@ spec func compatStep(s string, t string) bool = s == t || (s == "openai-compatible" && (t == "ollama" || t == "lm-studio"))
+//@ spec func compatibleWith(sb []string, t string) bool = t == "auto" || len(sb) == 0 || (exists ci int :: 0 <= ci && ci < len(sb) && compatStep(sb[ci], t))
+//@ func (rp *RequestProfile) IsCompatibleWith
+//@   property C11
+//@   loop 1 invariant forall ci int :: 0 <= ci && ci < i$1 ==> !compatStep(rp.SupportedBy[ci], endpointType)
+//@   ensures res == compatibleWith(rp.SupportedBy, endpointType)
+
+//@ func (rp *RequestProfile) AddSupportedProfile
+//@   property C11
+//@   modifies rp.SupportedBy
+//@   loop 1 invariant forall ci int :: 0 <= ci && ci < i$1 ==> rp.SupportedBy[ci] != profileType
+//@   ensures profileType != "" ==> listedURL(profileType, rp.SupportedBy)
+//@   ensures forall s string :: old(listedURL(s, rp.SupportedBy)) ==> listedURL(s, rp.SupportedBy)
+//@   ensures forall s string :: listedURL(s, rp.SupportedBy) ==> old(listedURL(s, rp.SupportedBy)) || s == profileType
+
+// model routing as seen by the handlers (every registry implementation): rejected means no endpoints
+//@ ghost var decisionCount int
+//@ ghost var lastDecisionAction string
+//@ ghost var lastDecisionStatus int
+//@ ghost var lastDecision *ModelRoutingDecision
+//@ interface ModelRegistry.GetRoutableEndpointsForModel
+//@   requires allNonNil(healthyEndpoints)
+//@   modifies Endpoint.Status, Endpoint.Name, Endpoint.URLString, Endpoint.Priority, Endpoint.Type, Endpoint.NextCheckTime, Endpoint.LastChecked, Endpoint.ConsecutiveFailures, Endpoint.BackoffMultiplier, Endpoint.LastLatency
+//@   records decisionCount = old(decisionCount) + 1
+//@   records lastDecision = res1
+//@   ensures res1 != nil ==> fresh(res1)
+//@   ensures res1 != nil && res1.Action == "rejected" ==> len(res0) == 0 && (res1.StatusCode == 404 || res1.StatusCode == 503)
+//@   ensures res1 != nil && res1.Action == "routed" ==> forall k int :: 0 <= k && k < len(res0) ==> member(res0[k], healthyEndpoints)
+//@   ensures allNonNil(res0)
+
+//@ interface ModelRegistry.GetModelsByCapability
+//@   ensures forall k int :: 0 <= k && k < len(res0) ==> res0[k] != nil
+
+//@ func NewRequestProfile
+//@   property C11
+//@   ensures res != nil && fresh(res) && res.Path == path && len(res.SupportedBy) == 0 && res.RoutingDecision == nil && res.ModelCapabilities == nil && res.ModelName == ""
+
+//@ interface InferenceProfile.GetConfig
